@@ -76,7 +76,8 @@ type node struct {
 	gid      int
 	nlink    int
 	mu       verifRWMutex
-	mode     fs.FileMode
+	mode     fs.FileMode // mode holds the type bits, they never change and can be read without lock.
+	perm     fs.FileMode // perm holds the permission bits, protected by mu.
 }
 
 // OrefaInfo is the implementation of fs.FileInfo returned by Stat and Lstat.
